@@ -29,7 +29,14 @@
    prefix buf[:off]; cap is cap(buf); isnil: buf == nil, which selects the small-buffer branch),
    st / held the abstract state of Buffer.tla driven by the same calls, ch the caller's slices as
    the storage algorithm sees them, ok the agreement flag.
-   Rounding of allocations to size classes is modelled by the nondeterministic `round`.        *)
+   Rounding of allocations to size classes is modelled by the nondeterministic `round`.
+
+   Collaborators: a writer that calls methods of the buffer from inside its Write (IWriteToRe: the
+   scripts of Nests run on the storage through the same transcribed methods, then WriteTo goes on
+   with the nBytes it remembered and the off it finds) must agree with OpWriteToRe of Buffer.tla,
+   lastRead and the bytes in front of the read point included (Rel).  The re-entering READER is not
+   refined here - this layer does not model the contents of spare capacity; that part of Buffer.tla
+   is validated against bytes.Buffer itself by trace validation.                                 *)
 EXTENDS Buffer
 
 CONSTANTS SmallBuf,     \* smallBufferSize (64) scaled down
@@ -145,6 +152,42 @@ CWriteTo(b0, wn, werr) ==
                ELSE IF wn # nb THEN CR(b1, wn, 0, <<>>, ErrShortWrite, NoPanic)
                ELSE CR(CReset(b1), wn, 0, <<>>, Nil, NoPanic)
 
+\* ---- a writer that calls back (Buffer.tla, COLLABORATORS): the nested calls run on the storage, then
+\* WriteTo continues with what it remembered (nBytes) and what it finds (off)
+CDoEv(b, e, round) ==
+    CASE e.op \in {"Write", "WriteString"} -> CWrite(b, e.b, round)
+      [] e.op = "WriteByte" -> CWriteByte(b, e.n, round)
+      [] e.op = "WriteRune" -> CWriteRune(b, e.n, round)
+      [] e.op = "Read" -> CRead(b, e.n)
+      [] e.op = "Next" -> CNext(b, e.n)
+      [] e.op = "ReadByte" -> CReadByte(b)
+      [] e.op = "ReadRune" -> CReadRune(b)
+      [] e.op = "UnreadByte" -> CUnreadByte(b)
+      [] e.op = "UnreadRune" -> CUnreadRune(b)
+      [] e.op \in {"ReadBytes", "ReadString"} -> CReadSlice(b, e.n)
+      [] e.op = "Truncate" -> CTruncate(b, e.n)
+      [] e.op = "Reset" -> COk(CReset(b))
+      [] e.op = "Grow" -> CGrowCall(b, e.n, round)
+      [] e.op = "Len" -> CR(b, CLen(b), 0, <<>>, Nil, NoPanic)
+      [] e.op \in {"Bytes", "String"} -> CR(b, 0, 0, CData(b), Nil, NoPanic)
+RECURSIVE CNestRun(_, _, _)
+CNestRun(b, nest, round) == IF nest = <<>> THEN b ELSE CNestRun(CDoEv(b, Head(nest), round).c, Tail(nest), round)
+\* the same script with the capacity input of every call (Available() before it) read off the storage
+RECURSIVE WithAvail(_, _, _)
+WithAvail(b, nest, round) ==
+    IF nest = <<>> THEN <<>>
+    ELSE <<[Head(nest) EXCEPT !.avail = CAvail(b)]>> \o WithAvail(CDoEv(b, Head(nest), round).c, Tail(nest), round)
+CWriteToRe(b0, nest, wn, werr, round) ==
+    LET b == [b0 EXCEPT !.lr = 0]
+        nb == CLen(b)
+    IN IF nb <= 0 THEN CR(CReset(b), 0, 0, <<>>, Nil, NoPanic)
+       ELSE LET b1 == CNestRun(b, nest, round)
+                b2 == [b1 EXCEPT !.off = b1.off + wn]
+            IN IF wn > nb THEN CR(b1, 0, 0, <<>>, Nil, PanWriteTo)
+               ELSE IF werr # Nil THEN CR(b2, wn, 0, <<>>, werr, NoPanic)
+               ELSE IF wn # nb THEN CR(b2, wn, 0, <<>>, ErrShortWrite, NoPanic)
+               ELSE CR(CReset(b2), wn, 0, <<>>, Nil, NoPanic)
+
 -----------------------------------------------------------------------------
 (* lock-step product: the same call on the algorithm and on the abstract model *)
 
@@ -187,6 +230,12 @@ IReadFrom(k, fin, rd) == FitsC(Payloads[k]) /\ Both("ReadFrom", <<>>, CReadFrom(
 IWriteTo(m, fin) == LET wn == WriterCount(st, m, fin)
                         we == IF fin = "err" THEN "injected" ELSE Nil
                     IN Both("WriteTo", <<>>, CWriteTo(c, wn, we), OpWriteTo(st, wn, we))
+IWriteToRe(j, m, fin, rd) ==
+    LET wn == WriterCount(st, m, fin)
+        we == IF fin = "err" THEN "injected" ELSE Nil
+        ao == OpWriteToRe(st, WithAvail([c EXCEPT !.lr = 0], Nests[j], rd), wn, we)
+    IN /\ CLen(c) > 0 /\ ~ao.und /\ Len(ao.o.st.data) + Len(ao.o.st.prev) <= MaxLen
+       /\ Both("WriteTo", <<>>, CWriteToRe(c, Nests[j], wn, we, rd), ao.o)
 \* Bytes(): b.buf[b.off:] - nothing moves
 IBytes == Both("Bytes", <<>>, CR(c, 0, 0, CData(c), Nil, NoPanic), OpContents(st))
 \* the caller stores v at position j of its k-th slice: into its private copy, or into buf
@@ -219,6 +268,8 @@ INext_ ==
     \/ \E k \in 1..Len(Payloads), fin \in {"eof", "err", "neg"}, rd \in 0..1 : IReadFrom(k, fin, rd)
     \/ \E fin \in {"ok", "over"} : IWriteTo(0, fin)
     \/ \E m \in 0..MaxLen, fin \in {"short", "err"} : IWriteTo(m, fin)
+    \/ \E j \in 1..Len(Nests), rd \in 0..1 : IWriteToRe(j, 0, "ok", rd)
+    \/ \E j \in 1..Len(Nests), m \in 0..1, fin \in ReFins, rd \in 0..1 : IWriteToRe(j, m, fin, rd)
     \/ IBytes
     \/ \E k \in 1..Hold, at \in {"first", "last"}, v \in PokeVals : IPoke(k, at, v)
 
